@@ -62,7 +62,7 @@ func (i *interpreter) toNative(fr *frame, t types.Type, v value, depth int) inte
 			return errFmt{i.errString(fr, x)}
 		}
 		if m := i.prog.MethodSets.MethodSet(x.t).Lookup(nil, "String"); m != nil {
-			if fn := i.prog.MethodValue(m); fn != nil && i.m.interpreted(fn) {
+			if fn := i.methodValue(m); fn != nil && i.m.interpreted(fn) {
 				if s, ok := call(i, fr, 0, fn, []value{x.v}).(string); ok {
 					return s
 				}
@@ -328,7 +328,7 @@ func (i *interpreter) writerAppend(fr *frame, w iface, s string) value {
 		if m == nil {
 			panic(unsupported("Fprintf to " + ts))
 		}
-		call(i, fr, 0, i.prog.MethodValue(m), []value{w.v, bytesVal([]byte(s))})
+		call(i, fr, 0, i.methodValue(m), []value{w.v, bytesVal([]byte(s))})
 	}
 	return tuple{len(s), iface{}}
 }
